@@ -86,6 +86,22 @@ fn enum_desc(variants: &[EnumVariant], fallback: Option<&EnumFallback>, schema: 
     d
 }
 
+/// What `Introspectable::layout()` of the generated type has to say, derived from the AST: ids, names, required
+/// flags, types (`<…>`, resolved to lexical ids by the harness), fallback names; sorted by id like the IR.
+fn struct_layout(kind_name: &str, fields: &[StructField], fallback: Option<&StructFallback>, schema: &str) -> String {
+    let mut fs: Vec<(u32, String)> = fields.iter().map(|f| (f.id().value().parse().unwrap(),
+        format!("{}:{}:{}:<{}>;", f.id().value(), f.name().value(), if f.required() { "r" } else { "o" }, ty(f.field_type(), schema)))).collect();
+    fs.sort();
+    format!("struct {} {{{}}} fb={}", kind_name, fs.into_iter().map(|f| f.1).collect::<String>(), fallback.map_or("-", |f| f.name().value()))
+}
+
+fn enum_layout(kind_name: &str, variants: &[EnumVariant], fallback: Option<&EnumFallback>, schema: &str) -> String {
+    let mut vs: Vec<(u32, String)> = variants.iter().map(|v| (v.id().value().parse().unwrap(),
+        format!("{}:{}:{};", v.id().value(), v.name().value(), v.variant_type().map_or("-".to_string(), |t| format!("<{}>", ty(t, schema)))))).collect();
+    vs.sort();
+    format!("enum {} {{{}}} fb={}", kind_name, vs.into_iter().map(|v| v.1).collect::<String>(), fallback.map_or("-", |f| f.name().value()))
+}
+
 fn main() {
     let base = PathBuf::from(std::env::var("CARGO_MANIFEST_DIR").unwrap()).join("schemas");
     println!("cargo:rerun-if-env-changed=TYPED_SCHEMA_DIR");
@@ -103,6 +119,7 @@ fn main() {
     files.sort();
     let mut out = String::new();
     let mut reg = String::new();
+    let mut svcs = String::new();
     let mut paths = vec![];
     for f in &files {
         println!("cargo:rerun-if-changed={}", f.display());
@@ -111,35 +128,57 @@ fn main() {
         let schema = parser.main_schema();
         let sname = schema.name().to_string();
         paths.push(format!("{:?}", f.display().to_string()));
-        let mut add = |name: String, desc: String| {
-            writeln!(reg, "        TypeEntry {{ name: \"{s}.{n}\", desc: \"{d}\", rt: |sv| rt::<gen::r#{s}::r#{n}>(sv) }},", s = sname, n = name, d = desc).unwrap();
+        let mut add = |name: String, desc: String, lay: String| {
+            writeln!(reg, "        TypeEntry {{ name: \"{s}.{n}\", desc: \"{d}\", rt: |sv| rt::<gen::r#{s}::r#{n}>(sv), lay: \"{l}\", layout: || <gen::r#{s}::r#{n} as aldrin_core::introspection::Introspectable>::layout() }},", s = sname, n = name, d = desc, l = lay).unwrap();
         };
         for def in schema.definitions() {
             match def {
-                Definition::Struct(s) => add(s.name().value().to_string(), struct_desc(s.fields(), s.fallback(), &sname)),
-                Definition::Enum(e) => add(e.name().value().to_string(), enum_desc(e.variants(), e.fallback(), &sname)),
-                Definition::Newtype(n) => add(n.name().value().to_string(), format!("newtype({})", ty(n.target_type(), &sname))),
+                Definition::Struct(s) => add(s.name().value().to_string(), struct_desc(s.fields(), s.fallback(), &sname),
+                    struct_layout(&format!("{}.{}", sname, s.name().value()), s.fields(), s.fallback(), &sname)),
+                Definition::Enum(e) => add(e.name().value().to_string(), enum_desc(e.variants(), e.fallback(), &sname),
+                    enum_layout(&format!("{}.{}", sname, e.name().value()), e.variants(), e.fallback(), &sname)),
+                Definition::Newtype(n) => add(n.name().value().to_string(), format!("newtype({})", ty(n.target_type(), &sname)),
+                    format!("newtype {}.{} <{}>", sname, n.name().value(), ty(n.target_type(), &sname))),
                 Definition::Service(svc) => {
                     // inline structs and enums of functions and events become types named after the service and the item
                     let sn = svc.name().value();
-                    let mut inline = |t: &TypeNameOrInline, name: String| match t {
-                        TypeNameOrInline::TypeName(_) => {}
-                        TypeNameOrInline::Struct(s) => add(name, struct_desc(s.fields(), s.fallback(), &sname)),
-                        TypeNameOrInline::Enum(e) => add(name, enum_desc(e.variants(), e.fallback(), &sname)),
+                    // returns how the item refers to the type
+                    let mut inline = |t: &TypeNameOrInline, name: String| -> String {
+                        match t {
+                            TypeNameOrInline::TypeName(t) => format!("<{}>", ty(t, &sname)),
+                            TypeNameOrInline::Struct(s) => {
+                                add(name.clone(), struct_desc(s.fields(), s.fallback(), &sname), struct_layout(&format!("{}.{}", sname, name), s.fields(), s.fallback(), &sname));
+                                format!("<@{}.{}>", sname, name)
+                            }
+                            TypeNameOrInline::Enum(e) => {
+                                add(name.clone(), enum_desc(e.variants(), e.fallback(), &sname), enum_layout(&format!("{}.{}", sname, name), e.variants(), e.fallback(), &sname));
+                                format!("<@{}.{}>", sname, name)
+                            }
+                        }
                     };
+                    let mut fns: Vec<(u32, String)> = vec![];
+                    let mut evs: Vec<(u32, String)> = vec![];
                     for item in svc.items() {
                         match item {
                             ServiceItem::Function(f) => {
                                 let fname = camel(f.name().value());
-                                if let Some(p) = f.args() { inline(p.part_type(), format!("{sn}{fname}Args")); }
-                                if let Some(p) = f.ok() { inline(p.part_type(), format!("{sn}{fname}Ok")); }
-                                if let Some(p) = f.err() { inline(p.part_type(), format!("{sn}{fname}Error")); }
+                                let a = f.args().map_or("-".to_string(), |p| inline(p.part_type(), format!("{sn}{fname}Args")));
+                                let o = f.ok().map_or("-".to_string(), |p| inline(p.part_type(), format!("{sn}{fname}Ok")));
+                                let e = f.err().map_or("-".to_string(), |p| inline(p.part_type(), format!("{sn}{fname}Error")));
+                                fns.push((f.id().value().parse().unwrap(), format!("{}:{}:{}:{}:{};", f.id().value(), f.name().value(), a, o, e)));
                             }
                             ServiceItem::Event(e) => {
-                                if let Some(t) = e.event_type() { inline(t, format!("{sn}{}Args", camel(e.name().value()))); }
+                                let t = e.event_type().map_or("-".to_string(), |t| inline(t, format!("{sn}{}Args", camel(e.name().value()))));
+                                evs.push((e.id().value().parse().unwrap(), format!("{}:{}:{};", e.id().value(), e.name().value(), t)));
                             }
                         }
                     }
+                    fns.sort();
+                    evs.sort();
+                    writeln!(svcs, "        SvcEntry {{ name: \"{s}.{n}\", lay: \"service {s}.{n} uuid={u} version={v} fns{{{f}}} evs{{{e}}} fnfb={ff} evfb={ef}\", layout: || <gen::r#{s}::r#{n} as aldrin_core::introspection::Introspectable>::layout() }},",
+                        s = sname, n = sn, u = svc.uuid().value(), v = svc.version().value(),
+                        f = fns.into_iter().map(|x| x.1).collect::<String>(), e = evs.into_iter().map(|x| x.1).collect::<String>(),
+                        ff = svc.function_fallback().map_or("-", |f| f.name().value()), ef = svc.event_fallback().map_or("-", |f| f.name().value())).unwrap();
                 }
                 _ => {}
             }
@@ -147,6 +186,7 @@ fn main() {
     }
     writeln!(out, "pub mod gen {{\n    aldrin::generate!({}, {}, introspection = true);\n}}", paths.join(", "), dirs.iter().map(|d| format!("include = {:?}", d.display().to_string())).collect::<Vec<_>>().join(", ")).unwrap();
     writeln!(out, "pub fn registry() -> Vec<TypeEntry> {{\n    vec![\n{}    ]\n}}", reg).unwrap();
+    writeln!(out, "pub fn services() -> Vec<SvcEntry> {{\n    vec![\n{}    ]\n}}", svcs).unwrap();
     let dest = PathBuf::from(std::env::var("OUT_DIR").unwrap()).join("typed_gen.rs");
     std::fs::write(dest, out).unwrap();
 }
